@@ -59,36 +59,35 @@ theorem branches_agree (c : Ctx) (root : Val) (env : Env) (hr : EnvRel c root en
 /-! ### `$map` / `$filter` item loops -/
 
 theorem map_loop (f g : Val → R (Option Val)) (items : List Val)
-    (h : ∀ x ∈ items, ∃ y, g x = .ok (some y) ∧ f x = .ok (some y)) :
+    (h : ∀ x ∈ items, ∃ y, g x = .ok y ∧ f x = .ok y) :
     ∃ (ys : List Val) (rs : List (Val × Option Val)),
-      mapItems f items = .ok (some ys) ∧ overItems g items = .ok rs ∧
+      mapItems f items = .ok ys ∧ overItems g items = .ok rs ∧
       rs.map (fun r => r.2.getD .null) = ys := by
   induction items with
   | nil => exact ⟨[], [], rfl, rfl, rfl⟩
   | cons x r ih =>
     obtain ⟨y, hg, hf⟩ := h x (by simp)
     obtain ⟨ys, rs, h1, h2, h3⟩ := ih (fun z hz => h z (by simp [hz]))
-    exact ⟨y :: ys, (x, some y) :: rs,
+    exact ⟨y.getD .null :: ys, (x, y) :: rs,
       by simp [mapItems, hf, h1, bind, Except.bind, pure, Except.pure],
       by simp [overItems, hg, h2, bind, Except.bind, pure, Except.pure],
       by simp [h3]⟩
 
 theorem filter_loop (f g : Val → R (Option Val)) (items : List Val)
-    (h : ∀ x ∈ items, ∃ y, g x = .ok (some y) ∧ f x = .ok (some y) ∧
-      y.truthy = Spec.toBool (some y)) :
+    (h : ∀ x ∈ items, ∃ y, g x = .ok y ∧ f x = .ok y) :
     ∃ (zs : List Val) (rs : List (Val × Option Val)),
-      filterItems f items = .ok (some zs) ∧ overItems g items = .ok rs ∧
+      filterItems f items = .ok zs ∧ overItems g items = .ok rs ∧
       (rs.filter (fun r => Spec.toBool r.2)).map (·.1) = zs := by
   induction items with
   | nil => exact ⟨[], [], rfl, rfl, rfl⟩
   | cons x r ih =>
-    obtain ⟨y, hg, hf, ht⟩ := h x (by simp)
+    obtain ⟨y, hg, hf⟩ := h x (by simp)
     obtain ⟨zs, rs, h1, h2, h3⟩ := ih (fun z hz => h z (by simp [hz]))
-    refine ⟨if y.truthy then x :: zs else zs, (x, some y) :: rs,
+    refine ⟨if toBoolOpt y then x :: zs else zs, (x, y) :: rs,
       by simp [filterItems, hf, h1, bind, Except.bind, pure, Except.pure],
       by simp [overItems, hg, h2, bind, Except.bind, pure, Except.pure], ?_⟩
-    simp only [List.filter_cons, ← ht]
-    cases y.truthy <;> simp [h3]
+    simp only [List.filter_cons, toBoolOpt_eq]
+    cases Spec.toBool y <;> simp [h3]
 
 theorem flatten_nil {α} (xss : List (List α)) (h : xss.flatten = []) : ∀ xs ∈ xss, xs = [] := by
   induction xss with
@@ -104,14 +103,14 @@ theorem flatten_nil {α} (xss : List (List α)) (h : xss.flatten = []) : ∀ xs 
 
 def wholeProved : List String :=
   ["$abs", "$ceil", "$floor", "$trunc", "$not", "$isArray", "$isNumber", "$size",
-   "$concatArrays"] ++ datePartOps
+   "$concatArrays", "$toLower", "$toUpper", "$toString"] ++ datePartOps
 
 theorem whole_pure (k : String) (hk : k ∈ wholeProved) (a : Option Val)
     (hr : strictReasons k [a] = []) (r : Option Val) (hs : applyStrict k [a] = .ok r) :
     applyWhole true k a = .ok r := by
   simp only [wholeProved, datePartOps, List.cons_append, List.nil_append, List.mem_cons,
     List.mem_nil_iff, or_false] at hk
-  rcases hk with rfl | rfl | rfl | rfl | rfl | rfl | rfl | rfl | rfl | hk
+  rcases hk with rfl | rfl | rfl | rfl | rfl | rfl | rfl | rfl | rfl | rfl | rfl | rfl | hk
   -- $abs
   · have hb : isBoolO a = false := by
       by_contra hc; simp [strictReasons, arithOps, hc] at hr
@@ -121,11 +120,9 @@ theorem whole_pure (k : String) (hk : k ∈ wholeProved) (a : Option Val)
     | error e => simp [h1, Except.map] at hs
     | ok w =>
       simp [h1, Except.map] at hs; subst hs
-      simp [applyWhole, unaryArithOps, unary_pure "$abs" (Or.inl rfl) a hb (by simp) w h1, Except.map]
+      simp [applyWhole, unaryArithOps, unary_pure "$abs" (Or.inl rfl) a hb w h1, Except.map]
   -- $ceil
   · have hb : isBoolO a = false := by
-      by_contra hc; simp [strictReasons, arithOps, hc] at hr
-    have hd : isDblO a = false := by
       by_contra hc; simp [strictReasons, arithOps, hc] at hr
     simp [applyStrict] at hs
     cases h1 : arith1 "$ceil" a with
@@ -133,11 +130,9 @@ theorem whole_pure (k : String) (hk : k ∈ wholeProved) (a : Option Val)
     | ok w =>
       simp [h1, Except.map] at hs; subst hs
       simp [applyWhole, unaryArithOps,
-        unary_pure "$ceil" (Or.inr (Or.inl rfl)) a hb (fun _ => hd) w h1, Except.map]
+        unary_pure "$ceil" (Or.inr (Or.inl rfl)) a hb w h1, Except.map]
   -- $floor
   · have hb : isBoolO a = false := by
-      by_contra hc; simp [strictReasons, arithOps, hc] at hr
-    have hd : isDblO a = false := by
       by_contra hc; simp [strictReasons, arithOps, hc] at hr
     simp [applyStrict] at hs
     cases h1 : arith1 "$floor" a with
@@ -145,11 +140,9 @@ theorem whole_pure (k : String) (hk : k ∈ wholeProved) (a : Option Val)
     | ok w =>
       simp [h1, Except.map] at hs; subst hs
       simp [applyWhole, unaryArithOps,
-        unary_pure "$floor" (Or.inr (Or.inr (Or.inl rfl))) a hb (fun _ => hd) w h1, Except.map]
+        unary_pure "$floor" (Or.inr (Or.inr (Or.inl rfl))) a hb w h1, Except.map]
   -- $trunc
   · have hb : isBoolO a = false := by
-      by_contra hc; simp [strictReasons, arithOps, hc] at hr
-    have hd : isDblO a = false := by
       by_contra hc; simp [strictReasons, arithOps, hc] at hr
     simp [applyStrict] at hs
     cases h1 : arith1 "$trunc" a with
@@ -157,7 +150,7 @@ theorem whole_pure (k : String) (hk : k ∈ wholeProved) (a : Option Val)
     | ok w =>
       simp [h1, Except.map] at hs; subst hs
       simp [applyWhole, unaryArithOps,
-        unary_pure "$trunc" (Or.inr (Or.inr (Or.inr rfl))) a hb (fun _ => hd) w h1, Except.map]
+        unary_pure "$trunc" (Or.inr (Or.inr (Or.inr rfl))) a hb w h1, Except.map]
   -- $not
   · simp [applyStrict] at hs
     subst hs
@@ -195,24 +188,61 @@ theorem whole_pure (k : String) (hk : k ∈ wholeProved) (a : Option Val)
       | some v =>
         simp only [nulled, List.map_cons, Option.getD_some, List.map_nil] at this
         simp [applyWhole, unaryArithOps, dateOps, datePartOps, groupingOps, this, Except.map]
+  -- $toLower
+  · simp [applyStrict] at hs
+    cases h1 : caseS false a with
+    | error e => simp [h1, Except.map] at hs
+    | ok w =>
+      simp [h1, Except.map] at hs; subst hs
+      have := case_pure false a w h1
+      cases a with
+      | none => simpa [applyWhole, unaryArithOps] using this
+      | some v =>
+        simp only at this
+        simp [applyWhole, unaryArithOps, this, Except.map]
+  -- $toUpper
+  · simp [applyStrict] at hs
+    cases h1 : caseS true a with
+    | error e => simp [h1, Except.map] at hs
+    | ok w =>
+      simp [h1, Except.map] at hs; subst hs
+      have := case_pure true a w h1
+      cases a with
+      | none => simpa [applyWhole, unaryArithOps] using this
+      | some v =>
+        simp only at this
+        simp [applyWhole, unaryArithOps, this, Except.map]
+  -- $toString
+  · simp [applyStrict] at hs
+    cases h1 : toStringS a with
+    | error e => simp [h1, Except.map] at hs
+    | ok w =>
+      simp [h1, Except.map] at hs; subst hs
+      have := toString_pure a w h1
+      cases a with
+      | none => simpa [applyWhole, unaryArithOps] using this
+      | some v =>
+        simp only at this
+        simp [applyWhole, unaryArithOps, this, Except.map]
   -- date parts
   · have hdp : datePartOps.contains k = true := by
       rcases hk with rfl | rfl | rfl | rfl | rfl | rfl | rfl | rfl | rfl | rfl <;> decide
-    have hnn : nullish a = false := by
-      by_contra hc
-      rcases hk with rfl | rfl | rfl | rfl | rfl | rfl | rfl | rfl | rfl | rfl <;>
-        simp [strictReasons, arithOps, datePartOps, hc] at hr
     have hs' : (datePartS k a).map some = .ok r := by
       rcases hk with rfl | rfl | rfl | rfl | rfl | rfl | rfl | rfl | rfl | rfl <;>
         simpa [applyStrict, datePartOps] using hs
     cases a with
-    | none => simp [nullish] at hnn
+    | none =>
+      have : r = some .null := by
+        simp [datePartS, nullish, Except.map] at hs'; exact hs'.symm
+      subst this
+      rcases hk with rfl | rfl | rfl | rfl | rfl | rfl | rfl | rfl | rfl | rfl <;>
+        simp [applyWhole, unaryArithOps, dateOps, datePartOps]
     | some v =>
       cases h1 : datePartS k (some v) with
       | error e => simp [h1, Except.map] at hs'
       | ok w =>
         simp [h1, Except.map] at hs'; subst hs'
-        have := datePart_pure k hdp v w hnn h1
+        have := datePart_pure k hdp v w h1
         have hd : dateOps.contains k = true := by
           rcases hk with rfl | rfl | rfl | rfl | rfl | rfl | rfl | rfl | rfl | rfl <;> decide
         rcases hk with rfl | rfl | rfl | rfl | rfl | rfl | rfl | rfl | rfl | rfl <;>
